@@ -1,9 +1,11 @@
 package ana
 
 import (
+	"encoding/json"
 	"fmt"
 	"os"
 	"os/exec"
+	"path/filepath"
 	"regexp"
 	"sort"
 	"strings"
@@ -16,8 +18,34 @@ import (
 // compiler's check_bce debug flag and returns the set of positions
 // ("file:line:col", file relative to dir) at which a bounds check remains.
 // Nothing is executed; cached compilations replay their diagnostics.
-func CompilerResidual(dir string) (map[string]string, error) {
-	cmd := exec.Command("go", "build", "-gcflags="+ModPath+"/...=-d=ssa/check_bce/debug=1", "./...")
+func CompilerResidual(dir string, overlay map[string][]byte) (map[string]string, error) {
+	args := []string{"build", "-gcflags=" + ModPath + "/...=-d=ssa/check_bce/debug=1"}
+	if len(overlay) > 0 {
+		// compile the normalised text (see normalize.go) so that positions agree with the analysed program
+		tmp, err := os.MkdirTemp("", "scioncheck-overlay")
+		if err != nil {
+			return nil, err
+		}
+		defer os.RemoveAll(tmp)
+		repl := map[string]string{}
+		i := 0
+		for name, text := range overlay {
+			i++
+			f := filepath.Join(tmp, fmt.Sprintf("f%d.go", i))
+			if err := os.WriteFile(f, text, 0o644); err != nil {
+				return nil, err
+			}
+			repl[name] = f
+		}
+		js, _ := json.Marshal(map[string]any{"Replace": repl})
+		ov := filepath.Join(tmp, "overlay.json")
+		if err := os.WriteFile(ov, js, 0o644); err != nil {
+			return nil, err
+		}
+		args = append(args, "-overlay="+ov)
+	}
+	args = append(args, "./...")
+	cmd := exec.Command("go", args...)
 	cmd.Dir = dir
 	cmd.Env = append(os.Environ(), "GOOS=linux", "GOARCH=amd64", "GOFLAGS=-mod=mod", "GOPROXY=off", "GOSUMDB=off", "GOTOOLCHAIN=local", "GOWORK=off")
 	out, err := cmd.CombinedOutput()
